@@ -21,7 +21,7 @@ LEVEL = "proof"
 MANIFEST = {
     "category": "proof",
     "text": "Coq theorems, by induction over ALL operation lists and interleavings of payment ids, about a transliterated model of OutboundPayments (per entry lifetime at most one of PaymentSent|PaymentFailed, never contradicted, PaymentSent only from a claim with that preimage and with the entry's amount/fee, PaymentFailed only if no claim hit the entry, drained payments terminate, duplicate ids refused, removal only by PaymentFailed or the idempotency timeout, Fulfilled snapshots never fail after restart, a path whose send returned Ok or MonitorUpdateInProgress keeps its part, no PaymentFailed while a part is pending, PaymentSent's fee is the sum of the fees of the parts pending at the claim - also after an abandonment and after restarts that re-insert tracked HTLCs); the model is tied to the code on every run by op-for-op differential execution of the real OutboundPayments (send results Ok / hard error / MonitorUpdateInProgress mixed), by scripted end-to-end scenarios and by a seeded random scheduler on real ChannelManagers and ChannelMonitors (2-4 nodes, async persistence, single message deliveries, config changes, force closes, blocks, restarts of the sender from its latest monitors and any earlier manager snapshot) judged by the property's statement on the real event stream, list_recent_payments, channels and monitors.",
-    "note": "Proved on the hand model; OutboundPayments validated by functional correspondence (not proved equal). Channel/monitor guarantees (an HTLC is claimed or failed, never both; preimage checked against the hash in channel.rs; monitors re-report only unresolved HTLCs) are hypotheses validated end-to-end only; the scheduler tier found three classes where they fail on the unchanged tree (known findings C03:stale-manager-fails-settled-payment, C03:stale-manager-loses-handled-resolution, C03:held-failure-dropped-on-close). Retry::Timeout, BOLT12/static-invoice states, blinded/trampoline paths, event completion actions are not modelled.",
+    "note": "Proved on the hand model; OutboundPayments validated by functional correspondence (not proved equal). Channel/monitor guarantees (an HTLC is claimed or failed, never both; preimage checked against the hash in channel.rs; monitors re-report only unresolved HTLCs) are hypotheses validated end-to-end only; the scheduler tier found three classes where they fail on the unchanged tree (known findings C03:stale-manager-fails-settled-payment, C03:stale-manager-loses-handled-resolution; C03:held-failure-dropped-on-close and C03:abandoned-payment-fee-counts-failed-parts were found here and fixed). Retry::Timeout, BOLT12/static-invoice states, blinded/trampoline paths, event completion actions are not modelled.",
     "technique": "machine-checked proof in Coq (induction over operation lists with a per-id scanner invariant) + op-for-op differential correspondence + end-to-end judge",
 }
 FEATURES = ["std", "_test_utils", "_verif_hooks"]
@@ -834,7 +834,13 @@ DIRECTED = {
     "finding_stale_manager_fails_settled_payment": ["cfg 0 1 0 0 1", "send 5000 0", "pump", "blocks 1", "claim", "pump", "reload 1", "reconnect 0 1", "pump"],
     "finding_stale_manager_loses_handled_part_failure": ["cfg 2 1 0 1 0", "sendmpp 2442", "fclose 0 3", "snapshot", "blocks 6", "reload 1000"],
     "finding_stale_manager_loses_handled_terminal_event": ["cfg 0 1 0 0 0", "send 5000 0", "pump", "fclose 0 0", "snapshot", "claim", "blocks 8", "reload 1000"],
+    # (fixed in 852ad65; the histories stay: without the fix the payment never gets its PaymentFailed)
     "finding_held_failure_dropped_on_close": ["cfg 0 1 0 0 0", "send 5000 0", "pump", "fail", "persist 0 1", "pump", "complete 0", "pump", "fclose 0 0"],
+    "held_failure_then_peer_closes": ["cfg 0 1 0 1 0", "send 5000 0", "pump", "fail", "persist 0 1", "pump", "complete 0", "pump", "fclose 1 0", "mine", "pump"],
+    "held_failure_then_close_then_reload": ["cfg 0 1 0 2 0", "send 5000 0", "pump", "fail", "persist 0 1", "pump", "complete 0", "pump", "fclose 0 0", "snapshot", "blocks 8", "reload 1000", "pump"],
+    "held_failure_of_one_mpp_part_then_close": ["cfg 2 1 0 0 0", "sendmpp 3000", "pump", "fail", "settle 3 1", "settle 3 2", "persist 0 1", "settle 1 0", "complete 0", "settle 1 0", "fclose 0 0", "pump"],
+    # the forwarder parks the failure of a forwarded HTLC and closes the downstream channel: the sender still gets its PaymentFailed
+    "held_failure_at_forwarder_then_close": ["cfg 1 1 0 0 0", "send 5000 0", "pump", "fail", "persist 1 1", "pump", "complete 1", "pump", "fclose 1 1", "pump"],
     # restarts from a fully up-to-date manager with the first-hop channel closed and the HTLC unresolved (the monitor
     # re-reports HTLCs the manager tracks), then an on-chain claim: PaymentSent's fee against what was committed
     "uptodate_reload_closed_first_hop_onchain_claim": ["cfg 1 1 0 0 0", "send 5000 0", "pump", "disconnect 0 1", "fclose 0 0", "snapshot", "reload 1000", "claim", "pump",
